@@ -90,8 +90,12 @@ QueryNoFromT == << QueryT[1], QueryT[2], QueryT[3], Tmpl("Query", <<N("Query", "
 SubQueryBodyT == <<SelectT>> \o CompoundT \o QueryNoFromT
 \* the trailing comma at the very end of a statement
 SelectTrailingEnd == Tmpl("Select", <<T("SELECT"), L("Results", "SelectItem", ",", 1), VAR(<< <<>>, <<TN(",")>> >>)>>)
+\* ... and of a pipe SELECT that is the last operator of the statement (parseSelectResults is shared)
+PipeSelectTrailT == << Tmpl("PipeSelect", <<T("|>"), T("SELECT"), L("Results", "SelectItem", ",", 1), TN(",")>>) >>
+QueryPipeTrailT == << Tmpl("Query", <<N("Query", "QueryPipeBody"), LOPEN("PipeOperators"), LI("Pipe", "", 0), N("", "PipeSelectTrail"), LCLOSE>>) >>
 QueryStatementT == << Tmpl("QueryStatement", <<O("Hint", "Hint"), N("Query", "QueryExpr")>>),
-                      Tmpl("QueryStatement", <<N("Query", "SelectTrailingEnd")>>) >>
+                      Tmpl("QueryStatement", <<N("Query", "SelectTrailingEnd")>>),
+                      Tmpl("QueryStatement", <<N("Query", "QueryPipeTrail")>>) >>
 
 \* focused start symbols (the budget is spent below the clause under study)
 QSFromT == << Tmpl("QueryStatement", <<N("Query", "SelFrom")>>) >>
@@ -139,6 +143,7 @@ QueryTemplates(nt) ==
     [] nt = "SelectItem" -> SelectItemT [] nt = "From" -> FromT [] nt = "Where" -> WhereT [] nt = "GroupBy" -> GroupByT [] nt = "Having" -> HavingT
     [] nt = "SimpleQuery" -> SimpleQueryT [] nt = "QueryBody" -> QueryBodyT [] nt = "QueryPipeBody" -> QueryPipeBodyT [] nt = "QueryExpr" -> QueryExprT
     [] nt = "SubQueryBody" -> SubQueryBodyT [] nt = "QueryExprNoFrom" -> QueryBodyT \o QueryNoFromT [] nt = "SelectTrailingEnd" -> <<SelectTrailingEnd>>
+    [] nt = "PipeSelectTrail" -> PipeSelectTrailT [] nt = "QueryPipeTrail" -> QueryPipeTrailT
     [] nt = "OrderBy" -> OrderByT [] nt = "OrderByItem" -> OrderByItemT [] nt = "Collate" -> CollateT [] nt = "StringValue" -> StringValueT
     [] nt = "IntValue" -> IntValueT [] nt = "IntOrParam" -> IntOrParamT [] nt = "NumValue" -> NumValueT [] nt = "NumOrParam" -> NumOrParamT
     [] nt = "Limit" -> LimitT [] nt = "Offset" -> OffsetT [] nt = "ForUpdate" -> ForUpdateT [] nt = "Pipe" -> PipeT [] nt = "With" -> WithT [] nt = "CTE" -> CTET
